@@ -359,6 +359,42 @@ func c12Marshal(c *mc.Ctx, k c12Msg) {
 	}
 }
 
+type c12BadExc struct {
+	Cut  int    `json:"body_cut,omitempty"`
+	Kind string `json:"kind"` // truncated | negative-size | unknown-type
+}
+
+// c12BadException: an EXCEPTION message whose BODY is malformed is a decode failure: UnmarshalFastMsg returns an error
+// that is not a (half-decoded) application exception.
+func c12BadException(c *mc.Ctx, k c12BadExc) {
+	c.Eval(1)
+	hdr := ref.MessageBegin(nil, "method", 3, 77)
+	st := exceptionStruct("the real text of the exception", 6)
+	body := ref.Encode(nil, &st)
+	switch k.Kind {
+	case "truncated":
+		body = body[:k.Cut]
+	case "negative-size":
+		body[3], body[4], body[5], body[6] = 0xff, 0xff, 0xff, 0xf0 // the string length of field 1
+	case "unknown-type":
+		body = append([]byte{0x05, 0x00, 0x09, 0x01}, body...) // a field of type 5 (not a Thrift type) first
+	}
+	in := append(hdr, body...)
+	sentinel := &base.Base{LogID: "sentinel"}
+	var err error
+	if pi := mc.Try(func() { _, _, err = thrift.UnmarshalFastMsg(in, sentinel) }); pi != nil {
+		c.Violate("badexc", "C12|exception-body|panic", fmt.Sprintf("UnmarshalFastMsg on an EXCEPTION message with a %s body (%d of %d body bytes): panic: %s at %s", k.Kind, len(body), len(ref.Encode(nil, &st)), pi.Msg, pi.Frame), k)
+		return
+	}
+	if err == nil {
+		c.Violate("badexc", "C12|exception-body|accepted", fmt.Sprintf("UnmarshalFastMsg accepted an EXCEPTION message with a %s body", k.Kind), k)
+		return
+	}
+	if ae, ok := err.(*thrift.ApplicationException); ok {
+		c.Violate("badexc", "C12|exception-body|half-decoded-exception", fmt.Sprintf("UnmarshalFastMsg on an EXCEPTION message with a %s body (%d body bytes) returned the half-decoded application exception (type id %d, text %q) instead of a decode error", k.Kind, len(body), ae.TypeID(), ae.Msg()), k)
+	}
+}
+
 // c12Decorated: see the comment inside.
 func c12Decorated(c *mc.Ctx) {
 	// a rejection that the caller decorated (PrependError, as generated code and servers do for logging) must not change
@@ -528,6 +564,12 @@ func c12Run(c *mc.Ctx) {
 	}
 	if c.Shard == 0 {
 		c12Decorated(c)
+		st := exceptionStruct("the real text of the exception", 6)
+		for cut := 0; cut < len(ref.Encode(nil, &st)); cut++ {
+			c12BadException(c, c12BadExc{Cut: cut, Kind: "truncated"})
+		}
+		c12BadException(c, c12BadExc{Kind: "negative-size"})
+		c12BadException(c, c12BadExc{Kind: "unknown-type"})
 	}
 	c.Done("every strict prefix of envelopes with 4 name lengths is rejected by both readers; bad first words on 4..11-byte inputs give BAD_VERSION; name-length boundary values give an error")
 	// (4) MarshalFastMsg -> UnmarshalFastMsg
@@ -595,6 +637,8 @@ func init() {
 				replayAs(raw, func(k c12Msg) { c12Marshal(c, k) })
 			case "decorated":
 				c12Decorated(c)
+			case "badexc":
+				replayAs(raw, func(k c12BadExc) { c12BadException(c, k) })
 			case "shortbad":
 				replayAs(raw, func(k c12Short) {
 					in, _ := hex.DecodeString(k.Hex)
